@@ -935,6 +935,7 @@ pub proof fn lemma_neighbors_distinct<T>(s: Seq<Node<T>>, w: Ranks, x: int)
 }
 
 /// C01/C02 across detach: the same rank witness keeps working
+#[verifier::spinoff_prover]
 #[verifier::rlimit(200)]
 pub proof fn lemma_detach_wf<T>(o: Seq<Node<T>>, n: Seq<Node<T>>, x: int, w: Ranks)
     requires
@@ -1201,6 +1202,7 @@ pub proof fn lemma_gap_transplant_pre<T>(s: Seq<Node<T>>, w: Ranks, x: NodeId, p
     }
 }
 
+#[verifier::spinoff_prover]
 #[verifier::rlimit(200)]
 pub proof fn lemma_insert_links<T>(o: Seq<Node<T>>, n: Seq<Node<T>>, w: Ranks, x: NodeId, parent: Option<NodeId>, prev: Option<NodeId>, next: Option<NodeId>)
     requires
@@ -1901,6 +1903,7 @@ pub proof fn lemma_splice_pre<T>(s: Seq<Node<T>>, m: Seq<Node<T>>, w: Ranks, x: 
     }
 }
 
+#[verifier::spinoff_prover]
 #[verifier::rlimit(300)]
 pub proof fn lemma_splice_links<T>(s: Seq<Node<T>>, n: Seq<Node<T>>, w: Ranks, x: int, fc: NodeId, lc: NodeId, p: Option<NodeId>, a: Option<NodeId>, b: Option<NodeId>)
     requires
@@ -1966,6 +1969,7 @@ pub proof fn lemma_splice_links<T>(s: Seq<Node<T>>, n: Seq<Node<T>>, w: Ranks, x
     }
 }
 
+#[verifier::spinoff_prover]
 pub proof fn lemma_splice_ranks<T>(s: Seq<Node<T>>, n: Seq<Node<T>>, w: Ranks, x: int, fc: NodeId, lc: NodeId, p: Option<NodeId>, a: Option<NodeId>, b: Option<NodeId>)
     requires
         splice_ctx(s, w, x, fc, lc, p, a, b),
@@ -2403,6 +2407,161 @@ pub proof fn lemma_remove_pointwise<T>(s0: Seq<Node<T>>, s1: Seq<Node<T>>, s3: S
         })
     } by {
         assert(s4[i].parent == s3[i].parent);
+    }
+}
+
+// ---- remove_subtree (C02 termination, C04) ---------------------------------------------------
+pub open spec fn live_count<T>(s: Seq<Node<T>>) -> nat
+    decreases s.len(),
+{
+    if s.len() == 0 {
+        0
+    } else {
+        live_count(s.drop_last()) + (if s.last().stamp.removed() {
+            0nat
+        } else {
+            1nat
+        })
+    }
+}
+
+pub proof fn lemma_live_count_same<T>(o: Seq<Node<T>>, n: Seq<Node<T>>)
+    requires
+        n.len() == o.len(),
+        forall|i: int| 0 <= i < o.len() ==> (#[trigger] n[i]).stamp == o[i].stamp,
+    ensures
+        live_count(n) == live_count(o),
+    decreases o.len(),
+{
+    if o.len() > 0 {
+        assert(n.last().stamp == o.last().stamp) by {
+            assert(n[n.len() - 1].stamp == o[o.len() - 1].stamp);
+        }
+        assert forall|i: int| 0 <= i < o.drop_last().len() implies (#[trigger] n.drop_last()[i]).stamp == o.drop_last()[i].stamp by {
+            assert(n[i].stamp == o[i].stamp);
+        }
+        lemma_live_count_same(o.drop_last(), n.drop_last());
+    }
+}
+
+pub proof fn lemma_live_count_free<T>(o: Seq<Node<T>>, n: Seq<Node<T>>, x: int)
+    requires
+        n.len() == o.len(),
+        0 <= x < o.len(),
+        !o[x].stamp.removed(),
+        n[x].stamp.removed(),
+        forall|i: int| 0 <= i < o.len() && i != x ==> (#[trigger] n[i]).stamp == o[i].stamp,
+    ensures
+        live_count(n) + 1 == live_count(o),
+    decreases o.len(),
+{
+    let ol = o.drop_last();
+    let nl = n.drop_last();
+    if x == o.len() - 1 {
+        assert forall|i: int| 0 <= i < ol.len() implies (#[trigger] nl[i]).stamp == ol[i].stamp by {
+            assert(n[i].stamp == o[i].stamp);
+        }
+        lemma_live_count_same(ol, nl);
+    } else {
+        assert(n.last().stamp == o.last().stamp) by {
+            assert(n[n.len() - 1].stamp == o[o.len() - 1].stamp);
+        }
+        assert forall|i: int| 0 <= i < ol.len() && i != x implies (#[trigger] nl[i]).stamp == ol[i].stamp by {
+            assert(n[i].stamp == o[i].stamp);
+        }
+        lemma_live_count_free(ol, nl, x);
+    }
+}
+
+/// in_sub is insensitive to a change of the parent link of a node z that is not on the path from y
+pub proof fn lemma_in_sub_frame2<T>(o: Seq<Node<T>>, n: Seq<Node<T>>, w: Ranks, r: int, y: int, z: int)
+    requires
+        n.len() == o.len(),
+        forall|i: int| 0 <= i < o.len() && i != z ==> (#[trigger] n[i]).parent == o[i].parent,
+        !in_sub(o, w, z, y),
+    ensures
+        in_sub(n, w, r, y) == in_sub(o, w, r, y),
+    decreases (w.depth)(y),
+{
+    if y != r && 0 <= y < o.len() && o[y].parent is Some && (w.depth)(o[y].parent->0.idx()) < (w.depth)(y) {
+        lemma_in_sub_frame2(o, n, w, r, o[y].parent->0.idx(), z);
+    }
+}
+
+pub proof fn lemma_id_eq_from_live<T>(s: Seq<Node<T>>, id: NodeId)
+    requires
+        tgt_ok(s, Some(id)),
+    ensures
+        0 <= id.idx() < s.len() && s[id.idx()].stamp == id.stamp && !id.stamp.removed(),
+{
+}
+
+pub proof fn lemma_parent_has_both_none<T>(s: Seq<Node<T>>, i: int)
+    requires
+        links_ok(s),
+        0 <= i < s.len(),
+    ensures
+        (s[i].first_child is Some) == (s[i].last_child is Some),
+{
+    reveal(node_ok);
+    assert(node_ok(s, i));
+}
+
+/// descending to the first child stays inside the subtree of r
+pub proof fn lemma_first_child_in_sub<T>(s: Seq<Node<T>>, w: Ranks, r: int, id: NodeId)
+    requires
+        links_ok(s),
+        ranked(s, w),
+        tgt_ok(s, Some(id)),
+        in_sub(s, w, r, id.idx()),
+        s[id.idx()].first_child is Some,
+    ensures
+        tgt_ok(s, s[id.idx()].first_child),
+        in_sub(s, w, r, s[id.idx()].first_child->0.idx()),
+        (w.depth)(s[id.idx()].first_child->0.idx()) > (w.depth)(id.idx()),
+        (w.depth)(s[id.idx()].first_child->0.idx()) <= w.bound,
+{
+    reveal(node_ok);
+    assert(node_ok(s, id.idx()));
+    let c = s[id.idx()].first_child->0.idx();
+    assert(node_ok(s, c));
+    assert(ranked_at(s, w, c));
+}
+
+/// after the leaf `id` of the subtree of r has been detached and freed, its former parent is
+/// still inside the subtree, and r itself is untouched unless it was the leaf
+pub proof fn lemma_leaf_removed_frame<T>(s0: Seq<Node<T>>, s1: Seq<Node<T>>, s2: Seq<Node<T>>, w: Ranks, r: int, id: NodeId)
+    requires
+        links_ok(s0),
+        ranked(s0, w),
+        tgt_ok(s0, Some(id)),
+        s0[id.idx()].first_child is None,
+        in_sub(s0, w, r, id.idx()),
+        detach_post(s0, s1, id.idx()),
+        s2.len() == s1.len(),
+        forall|i: int|
+            0 <= i < s1.len() ==> (#[trigger] s2[i]).parent == s1[i].parent && (i != id.idx() ==> s2[i].stamp == s1[i].stamp),
+        s2[id.idx()].stamp.removed(),
+        0 <= r < s0.len(),
+        !s0[r].stamp.removed(),
+        s0[r].parent is None,
+    ensures
+        s0[id.idx()].parent is Some ==> tgt_ok(s2, s0[id.idx()].parent) && in_sub(s2, w, r, s0[id.idx()].parent->0.idx()) && id.idx() != r
+            && !s2[r].stamp.removed() && s2[r].parent is None && s2[r].stamp == s0[r].stamp,
+        s0[id.idx()].parent is None ==> id.idx() == r,
+{
+    let x = id.idx();
+    lemma_links_live(s0, x);
+    assert(ranked_at(s0, w, x));
+    if s0[x].parent is Some {
+        let p = s0[x].parent->0.idx();
+        assert(p != x);
+        // x is a leaf: it is on nobody's path to the root
+        lemma_childless_not_anc(s0, w, x, p);
+        lemma_in_sub_frame2(s0, s2, w, r, p, x);
+        assert(in_sub(s0, w, r, x) == (x == r || in_sub(s0, w, r, p)));
+    } else {
+        assert(in_sub(s0, w, r, x) == (x == r));
     }
 }
 
